@@ -33,13 +33,13 @@
 (*   "F25" OPEN finding, inherent in the algorithm below (a callback on the *)
 (*         session node itself cannot say "do not descend"): the name only  *)
 (*         switches the exemption in RouteOnce on                           *)
-(*   "NoAlreadyDid", "FastPathFirstEntry"                                   *)
+(*   "NoAlreadyDid", "FastPathFirstEntry", "ScratchPerBucket"               *)
 (*         deliberately wrong variants, to show that each invariant can fail*)
 (***************************************************************************)
 EXTENDS Naturals, Sequences, FiniteSets, TLC, Json
 
 CONSTANTS Deviations,
-          UNIVERSE,       \* which bounded space Init enumerates: "core", "full", "tri" ("none": no initial state, for modules that set c themselves)
+          UNIVERSE,       \* which bounded space Init enumerates: "core", "lists", "full", "tri" ("none": no initial state, for modules that set c themselves)
           SHARD, NSHARDS  \* Init takes the cases whose index is SHARD modulo NSHARDS (TLC computes initial states on one thread)
 
 VARIABLE c                \* the case
@@ -60,6 +60,7 @@ MatchSet(t) == CASE t = "*"     -> AllNames
                  [] t = "2"     -> {"2"}
                  [] t = "3"     -> {"3"}
                  [] t = "1,0"   -> {"0", "1"}
+                 [] t = "2,1"   -> {"1", "2"}
                  [] t = "<0-1>" -> {"0", "1"}
                  [] t = "~0"    -> AllNames \ {"0"}
                  [] t = "a"     -> {"a"}
@@ -68,14 +69,16 @@ MatchSet(t) == CASE t = "*"     -> AllNames
                  [] t = "?"     -> AllNames
                  [] t = "(a|c)" -> {"a"}
                  [] t = "b,a"   -> {"a", "b"}
+                 [] t = "a,c"   -> {"a"}
+                 [] t = "b,c"   -> {"b"}
                  [] t = "b,\\a" -> {"a", "b"}
                  [] t = "~a"    -> AllNames \ {"a"}
-Tokens == {"*", "h", "0", "1", "2", "3", "1,0", "<0-1>", "~0", "a", "b", "\\a", "?", "(a|c)", "b,a", "b,\\a", "~a"}
+Tokens == {"*", "h", "0", "1", "2", "3", "1,0", "2,1", "a,c", "b,c", "<0-1>", "~0", "a", "b", "\\a", "?", "(a|c)", "b,a", "b,\\a", "~a"}
 ClMatch(t, n) == n \in MatchSet(t)
 \* "U" IsPatternUnique, "L" IsPatternListOfUniqueValues, "W" anything else ("*" is stored as a NULL matcher)
-Kind(t) == IF t \in {"h", "0", "1", "2", "3", "a", "b", "\\a"} THEN "U" ELSE IF t \in {"1,0", "b,a", "b,\\a"} THEN "L" ELSE "W"
+Kind(t) == IF t \in {"h", "0", "1", "2", "3", "a", "b", "\\a"} THEN "U" ELSE IF t \in {"1,0", "2,1", "b,a", "b,\\a", "a,c", "b,c"} THEN "L" ELSE "W"
 \* the keys of the hash lookups: the items of the list, unescaped, in order
-Lits(t) == CASE t = "1,0" -> <<"1", "0">> [] t = "b,a" -> <<"b", "a">> [] t = "b,\\a" -> <<"b", "a">> [] t = "\\a" -> <<"a">> [] OTHER -> <<t>>
+Lits(t) == CASE t = "1,0" -> <<"1", "0">> [] t = "2,1" -> <<"2", "1">> [] t = "a,c" -> <<"a", "c">> [] t = "b,c" -> <<"b", "c">> [] t = "b,a" -> <<"b", "a">> [] t = "b,\\a" -> <<"b", "a">> [] t = "\\a" -> <<"a">> [] OTHER -> <<t>>
 
 \* what the real StringMatcher answered about the tokens (rows [t, lvl, k, m] written by the harness) agrees with the table above, on the names of n sessions
 RowOK(r, n) == /\ r.t \in Tokens
@@ -133,7 +136,7 @@ Aux(T, es, mode, node) ==
                                       ELSE loop(i + 1, vis \o r.vis)
           IN loop(1, << >>)
      ELSE \* optimized case: one hash lookup per literal of every entry, entry by entry; alreadyDid
-          LET RECURSIVE eloop(_, _, _), lloop(_, _, _, _, _)
+          LET RECURSIVE eloop(_, _, _, _), lloop(_, _, _, _, _)
               lloop(ei, lits, k, vis, did) ==
                  IF k > Len(lits) THEN [vis |-> vis, unw |-> FALSE, d |-> depth, did |-> did]
                  ELSE LET ch == Append(node, lits[k])
@@ -142,12 +145,17 @@ Aux(T, es, mode, node) ==
                               IN IF r.unw THEN [vis |-> vis \o r.vis, unw |-> TRUE, d |-> r.d, did |-> did]
                                  ELSE lloop(ei, lits, k + 1, vis \o r.vis, did \cup {ch})
                          ELSE lloop(ei, lits, k + 1, vis, did)
-              eloop(ei, vis, did) ==
+              \* (wrong variant "ScratchPerBucket": the scratch string of the list scanner is cleared per depth bucket, not per entry, so the last
+              \* item of an earlier list of the bucket is glued in front of the first item of the next list: that lookup finds nothing)
+              eloop(ei, vis, did, left) ==
                  IF ei > Len(live) THEN [vis |-> vis, unw |-> FALSE, d |-> depth]
-                 ELSE LET r == lloop(ei, Lits(live[ei].cl[depth + 1]), 1, vis, did)
+                 ELSE LET t    == live[ei].cl[depth + 1]
+                          lf   == left /\ ei > 1 /\ Len(live[ei - 1].cl) = Len(live[ei].cl)
+                          lits == IF "ScratchPerBucket" \in Deviations /\ lf /\ Kind(t) = "L" THEN Tail(Lits(t)) ELSE Lits(t)
+                          r    == lloop(ei, lits, 1, vis, did)
                       IN IF r.unw THEN [vis |-> r.vis, unw |-> TRUE, d |-> r.d]
-                         ELSE eloop(ei + 1, r.vis, r.did)
-          IN eloop(1, << >>, {})
+                         ELSE eloop(ei + 1, r.vis, r.did, Kind(t) = "L" \/ lf)
+          IN eloop(1, << >>, {}, FALSE)
 
 \* CheckChildForTraversal(child, optKnownMatchingEntryIdx = knownIdx (0 = none)); depth = depth of the parent
 \* (the two "break" statements of the code leave the inner loop when matched and recursed are both set: nothing can happen afterwards)
@@ -230,10 +238,14 @@ Menu == << <<"*">>, <<"h">>,
         \o [i \in 1..15 |-> <<"*", "*", C5[((i - 1) \div 3) + 1], D3[((i - 1) % 3) + 1]>>]
         \o << <<"*", "*", "\\a", "b">>, <<"*", "*", "?", "?">>, <<"*", "0", "a", "*">>, <<"*", "0", "*", "b">>,
               <<"h", "1,0", "a", "a">>, <<"*", "<0-1>", "(a|c)", "a">>, <<"*", "*", "a", "(a|c)">> >>
+        \* 43..47: comma lists of literals with different items, so that several patterns of ONE depth are all-literal lists at one level
+        \o << <<"*", "2,1">>, <<"*", "*", "a,c">>, <<"*", "*", "b,c">>, <<"*", "*", "a", "a,c">>, <<"*", "*", "a", "b,c">> >>
 CoreMenu == <<1, 3, 4, 7, 9, 10, 13, 16, 21, 23, 27, 29, 32>>
+ListMenu == <<5, 43, 44, 45, 13, 46, 47>>            \* every pattern has a list clause; sequences of 1-3 of them, each item of a list naming (at most) another session's node
 Seq25 == [i \in 1..25 |-> i - 1]
 U == CASE UNIVERSE = "core" -> [codes |-> <<Seq25, <<0, 1, 5, 6>>, <<0>>>>, menu |-> CoreMenu, maxp |-> 2]
        [] UNIVERSE = "full" -> [codes |-> <<Seq25, Seq25, <<0>>>>, menu |-> [i \in 1..Len(Menu) |-> i], maxp |-> 2]
+       [] UNIVERSE = "lists" -> [codes |-> <<<<5, 21>>, <<1, 21>>, <<1, 5>>>>, menu |-> ListMenu, maxp |-> 3]
        [] UNIVERSE = "tri"  -> [codes |-> <<Seq25, <<0, 1, 5, 6>>, <<0, 1, 5, 6>>>>, menu |-> CoreMenu, maxp |-> 3]
        [] OTHER -> [codes |-> <<<<0>>, <<0>>, <<0>>>>, menu |-> <<1>>, maxp |-> 0]
 NM == Len(U.menu)
